@@ -264,6 +264,8 @@ class Ambient:
     def run(self, fn):
         """Run fn() as the main task with the patches in place; afterwards every other task is run to quiescence."""
         self.install()
+        self.sub.count('subruns_under_ambient_thread_seam')
+        self.sub.count('ambient_threads', 0)
         try:
             return self.sched.run_main(fn)
         finally:
